@@ -26,6 +26,7 @@ def run(chk):
     r18d(chk)
     r18g(chk)
     r18h(chk)
+    r18i(chk)
     from .c03 import r03a, r03b
 
     r03a(chk, 'R18.e')
@@ -286,3 +287,32 @@ def r18h(chk, rid='R18.h'):
     for b_ in bad[:4]:
         chk.ob(rid, 'cssutils/css/value.py', 'DimensionValue._setCssText', 'literal read as written', False, b_)
     chk.ob(rid, 'cssutils/css/value.py', 'DimensionValue._setCssText', f'all {n} literals: exact value, sign spelling, normalised unit, token type', not bad, f'{len(bad)} differ')
+
+
+def r18i(chk, rid='R18.i'):
+    chk.rule(rid, 'a URL survives writing and reading, decided by evaluation: helper.uri (the writer) and helper.urivalue with stringvalue (the reader of the URI token) are evaluated on their syntax trees and composed: for URLs that begin, end or contain each character that matters - every Unicode white space character (there are finitely many), quotes, parentheses, comma, semicolon, control characters, non-ASCII letters - the content read back is the content written; the reader alone returns the exact content of quoted and unquoted url() tokens, including an escaped delimiter at the very end')
+    from sa.absint import Evaluator, Raised
+
+    m = chk.repo.mod('cssutils/helper.py')
+    w, r = m.get('uri'), m.get('urivalue')
+    # line feed, carriage return and form feed are written as hex escapes, which the tokenizer decodes before
+    # urivalue sees the token (R03.a decides those); every other white space character is covered here
+    spaces = [chr(c) for c in range(0x3001) if chr(c).isspace() and chr(c) not in '\n\r\f']
+    specials = spaces + ['"', "'", '(', ')', ',', ';', '\x01', '\x7f', '\xe9', '€', '%', '#', '?']
+    n = 0
+    bad = []
+    for c in specials:
+        for value in (c + 'x', 'x' + c, 'a' + c + 'b', c + 'x' + c):
+            text_ = Evaluator(w, module=m).run(value=value)
+            if isinstance(text_, Raised) or not isinstance(text_, str):
+                bad.append(f'uri({value!r}) gives {text_!r}')
+                continue
+            back = Evaluator(r, module=m).run(uri=text_)
+            n += 1
+            if back != value:
+                bad.append(f'{value!r} is written {text_!r} and read back as {back!r}')
+    chk.extra['url_round_trips'] = n
+    chk.ob(rid, 'cssutils/helper.py', 'uri', f'all {n} URLs come back as they were written', not bad, f'{len(bad)} do not, e.g. ' + ' | '.join(bad[:2]))
+    for token, want in (('url(a.png)', 'a.png'), ('url( a.png )', 'a.png'), ('url("a b")', 'a b'), ("url('a b')", 'a b'), ('url("a\\"")', 'a"'), ('url("\\"a")', '"a'), ("url('it\\'s')", "it's"), ('url("")', ''), ('url()', ''), ('URL("x")', 'x'), ('url("a\'b")', "a'b")):
+        got = Evaluator(r, module=m).run(uri=token)
+        chk.ob(rid, 'cssutils/helper.py', 'urivalue', f'the content of {token} is {want!r}', got == want, f'read as {got!r}')
